@@ -172,6 +172,7 @@ def run(db: ProgramDB, chk) -> None:
     # result-carrying attributes: stored by construction-phase code, read by the post-construction API
     cls_methods = [q.split(".", 1)[1] for q in m.functions if q.startswith("CPGraph.") and q.count(".") == 1]
     construct = H.method_closure(m, "CPGraph", ["_construct_graph", "critical_path"])
+    rerun = set(H.method_closure(m, "CPGraph", ["critical_path"])) - set(H.method_closure(m, "CPGraph", ["_construct_graph"]))
     stored = {}
     for meth in construct:
         for a in H.attr_store_names(m.functions[f"CPGraph.{meth}"], "self"):
@@ -205,7 +206,8 @@ def run(db: ProgramDB, chk) -> None:
             if isinstance(n, ast.Attribute) and isinstance(n.ctx, ast.Load) and n.attr in stored:
                 if q in ("CPGraph.save", "restore_cpgraph"):
                     continue
-                if meth is not None and meth.split(".")[0] in construct and meth.split(".")[0] != "critical_path":
+                # (critical_path() is re-run on a restored graph - the what-if workflow - so what IT and its helpers read must be there after a restore)
+                if meth is not None and meth.split(".")[0] in construct and meth.split(".")[0] not in rerun:
                     continue
                 reads.add(n.attr)
     result_attrs = {a for a in stored if a in reads}
